@@ -317,6 +317,7 @@ type httpRig struct {
 	seen     chan *seenReq
 	mu       sync.Mutex
 	plan     *httpResp // response the upstream gives to the next request
+	badPreface *int32  // HTTP/2 upstream: connections that did not start with the client preface
 	// clients
 	h1  net.Conn
 	br  *bufio.Reader
@@ -347,7 +348,7 @@ func newHTTPRig(down, up string) (*httpRig, error) {
 			}
 		})
 	} else {
-		g.up1 = mesh.NewH2Server(http.HandlerFunc(func(w http.ResponseWriter, req *http.Request) {
+		g.up1, g.badPreface = mesh.NewH2Server(http.HandlerFunc(func(w http.ResponseWriter, req *http.Request) {
 			body, _ := io.ReadAll(req.Body)
 			g.seen <- &seenReq{Method: req.Method, Target: req.RequestURI, Host: req.Host, Header: mesh.FlattenHeader(req.Header), Body: body}
 			p := g.getPlan()
@@ -618,8 +619,10 @@ func httpExchange(rt *rapid.T, g *httpRig, idx int, req *httpReq, resp *httpResp
 		switch {
 		case strings.Contains(sig, "-default-content-type-invented") && (g.down == "Http1" || g.up == "Http1"):
 			scope = "fasthttp" // fasthttp's header objects report / write a default Content-Type on either side
-		case strings.HasPrefix(sig, "request-default-user-agent-invented"):
-			scope = "up=" + g.up // written by the upstream-side codec
+		case strings.HasPrefix(sig, "request-default-user-agent-invented"), strings.HasPrefix(sig, "request-not-forwarded:h2-upstream"):
+			scope = "up=" + g.up // upstream-side codec
+		case strings.HasPrefix(sig, "response-date-replaced"):
+			scope = "down=" + g.down // downstream-side codec
 		}
 		found = append(found, finding{"http/" + scope + "/" + sig, desc + ": " + fmt.Sprintf(format, a...)})
 		// failures after which the rest of the exchange (and the connection) cannot be judged
@@ -655,6 +658,11 @@ func httpExchange(rt *rapid.T, g *httpRig, idx int, req *httpReq, resp *httpResp
 		sig := "request-not-forwarded"
 		if req.Path == "*" {
 			sig += ":asterisk-form"
+		}
+		if g.badPreface != nil && atomic.LoadInt32(g.badPreface) > 0 {
+			// the proxy's HTTP/2 client connection sent a frame (the SETTINGS ack) before its connection preface;
+			// the upstream dropped the connection and the request was answered locally
+			sig = "request-not-forwarded:h2-upstream-connection-started-without-preface"
 		}
 		fail(sig, "the upstream saw no request; client got status %d err %v", got.Status, got.Err)
 	}
@@ -790,6 +798,8 @@ func checkHeaders(fail0 func(string, string, ...interface{}), what string, cross
 			sorted := func(s []string) []string { c := append([]string(nil), s...); sortS(c); return c }
 			if reflect.DeepEqual(sorted(w), sorted(gv)) {
 				fail(what+"-header-values-reordered"+rep, "%q values arrived in another order: sent %s, arrived %s", name, shortHdr(want), shortHdr(got))
+			} else if name == "date" && what == "response" {
+				fail("response-date-replaced", "the upstream's Date arrived replaced: sent %s, arrived %s", shortHdr(want), shortHdr(got))
 			} else {
 				fail(what+"-header-value-changed"+rep, "%q: sent %s, arrived %s", name, shortHdr(want), shortHdr(got))
 			}
